@@ -39,20 +39,24 @@ def Kind.emitList : Kind → Option (List Sig)
   | .pole => some []
   | .unsupported _ => some []
 
-def Kind.mayEmitB (k : Kind) (s : Sig) : Bool :=
-  match k.emitList with
+/-- what entity `p` of the circuit may emit: a declared source may emit anything -/
+def Circuit.emitListOf (c : Circuit) (p : Nat) : Option (List Sig) :=
+  if c.sources.contains p then none else (c.kind p).emitList
+
+def Circuit.mayEmit (c : Circuit) (p : Nat) (s : Sig) : Bool :=
+  match c.emitListOf p with
   | some l => l.contains s
   | none => true
 
 /-- entities that never emit anything (anchors, poles, lamps) -/
-def Kind.silent (k : Kind) : Bool :=
-  match k.emitList with
+def Circuit.silentEnt (c : Circuit) (p : Nat) : Bool :=
+  match c.emitListOf p with
   | some [] => true
   | _ => false
 
 /-- entities that can emit no signal other than `s` -/
-def Kind.emitsOnly (k : Kind) (s : Sig) : Bool :=
-  match k.emitList with
+def Circuit.emitsOnly (c : Circuit) (p : Nat) (s : Sig) : Bool :=
+  match c.emitListOf p with
   | some l => l.all (· == s)
   | none => false
 
@@ -62,28 +66,30 @@ def Circuit.selProducers (c : Circuit) (i : Nat) (sel : Sel) : List Nat :=
 
 /-- exactly one visible producer may emit `s`, and it is `e` -/
 def Circuit.isolated (c : Circuit) (i : Nat) (sel : Sel) (s : Sig) (e : Nat) : Bool :=
-  (c.selProducers i sel).filter (fun p => (c.kind p).mayEmitB s) == [e]
+  (c.selProducers i sel).filter (fun p => c.mayEmit p s) == [e]
 
 /-- the unique visible producer that may emit `s`, if there is exactly one -/
 def Circuit.soleProducer (c : Circuit) (i : Nat) (sel : Sel) (s : Sig) : Option Nat :=
-  match (c.selProducers i sel).filter (fun p => (c.kind p).mayEmitB s) with
+  match (c.selProducers i sel).filter (fun p => c.mayEmit p s) with
   | [e] => some e
   | _ => none
 
 /-- the selection `sel` of entity `i` sees exactly the entities `es` (silent ones aside): a wildcard operand
 reading it ranges over exactly the wire-sum of `es` -/
 def Circuit.carries (c : Circuit) (i : Nat) (sel : Sel) (es : List Nat) : Bool :=
-  ((c.selProducers i sel).filter (fun p => !(c.kind p).silent)).isPerm (es.filter (fun p => !(c.kind p).silent))
+  ((c.selProducers i sel).filter (fun p => !c.silentEnt p)).isPerm (es.filter (fun p => !c.silentEnt p))
 
 /-- on signal `s`, the selection `sel` of entity `i` sees exactly the entities `es` -/
 def Circuit.readsSum (c : Circuit) (i : Nat) (sel : Sel) (s : Sig) (es : List Nat) : Bool :=
-  ((c.selProducers i sel).filter (fun p => (c.kind p).mayEmitB s)).isPerm (es.filter (fun p => (c.kind p).mayEmitB s))
+  ((c.selProducers i sel).filter (fun p => c.mayEmit p s)).isPerm (es.filter (fun p => c.mayEmit p s))
 
-/-- entity `p` is not the combinator of a declared input (so its constants are not varied) -/
+/-- entity `p` is neither the combinator of a declared input nor a container read through `.output`
+(so what it emits is not varied) -/
 def notInputEnt (nodes : Array CNode) (bind : Nat → Option Bind) (p : Nat) : Bool :=
   (List.range nodes.size).all (fun n =>
     match nodes[n]?, bind n with
     | some (.input ..), some (.ent e _) => e != p
+    | some (.entOut _), some (.many es) => !es.contains p
     | _, _ => true)
 
 /-- does operand `o` of entity `i` denote argument `a`? -/
@@ -353,7 +359,7 @@ def partEnts (c : Circuit) (nodes : Array CNode) (bind : Nat → Option Bind) (p
   | some (.many es) => (match nodes[p]? with | some nd => if nd.ty?.isNone then some es else none | none => none)
   | some (.ent e s) =>
     (match nodes[p]? with
-     | some nd => if nd.ty? == some s && (c.kind e).emitsOnly s then some [e] else none
+     | some nd => if nd.ty? == some s && c.emitsOnly e s then some [e] else none
      | none => none)
   | _ => none
 
@@ -436,6 +442,7 @@ def checkMany (c : Circuit) (nodes : Array CNode) (bind : Nat → Option Bind) (
            | _, _ => false)
         | _ => false)
      | _, _ => false)
+  | .entOut _ => (match es with | [e] => c.sources.contains e | _ => false)
   | .bgate op a k b =>
     decide (b < n) && argBelow n a && argBelow n k &&
     (match es, bind b with
@@ -463,6 +470,42 @@ def checkNode (c : Circuit) (nodes : Array CNode) (bind : Nat → Option Bind) (
   | some nd, some (.ent e s) => checkEnt c nodes bind n nd e s
   | some nd, some (.sum es s) => checkSum bind n nd es s
   | some nd, some (.many es) => checkMany c nodes bind n nd es
+
+/-- an `any(b) op rhs` / `all(b) op rhs` row `cd` of entity `e` -/
+def quantCondOK (c : Circuit) (nodes : Array CNode) (bind : Nat → Option Bind) (n : Nat) (isAny : Bool)
+    (b : Nat) (op : CmpOp) (rhs : Arg) (e : Nat) (cd : Cond) : Bool :=
+  decide (b < n) && argBelow n rhs &&
+  (match bind b with
+   | some (.many eb) =>
+     (match cd.first with
+      | .ref .anything sel => isAny && c.carries e sel eb
+      | .ref .everything sel => !isAny && c.carries e sel eb
+      | _ => false)
+   | _ => false) &&
+  cd.op == op && cd.second.isPlain && matchOperand c nodes bind e cd.second rhs
+
+/-- the circuit condition of the controlled entity `i` holds exactly when the value of `w` is positive:
+either the condition is `w > 0` on the wire carrying `w`, or `w` is a comparison inlined into the entity -/
+def enableIs (c : Circuit) (nodes : Array CNode) (bind : Nat → Option Bind) (i : Nat) (w : Arg) : Bool :=
+  argBelow nodes.size w &&
+  match c.kind i with
+  | .controlled (some cd) =>
+    (cd.op == .gt && cd.first.isPlain && !cd.usesEach && matchOperand c nodes bind i cd.first w &&
+      (match cd.second with | .const k => k == 0 | _ => false)) ||
+    (match w with
+     | .node m =>
+       (match nodes[m]? with
+        | some (.cmp op a b _) =>
+          argBelow m a && argBelow m b && cd.op == op && cd.first.isPlain && !cd.usesEach &&
+            matchOperand c nodes bind i cd.first a && matchOperand c nodes bind i cd.second b
+        | some (.anyCmp bn op rhs none _) => quantCondOK c nodes bind m true bn op rhs i cd
+        | some (.allCmp bn op rhs none _) => quantCondOK c nodes bind m false bn op rhs i cd
+        | some (.lnot a _) =>
+          argBelow m a && cd.op == .eq && cd.first.isPlain && !cd.usesEach &&
+            matchOperand c nodes bind i cd.first a && (match cd.second with | .const k => k == 0 | _ => false)
+        | _ => false)
+     | _ => false)
+  | _ => false
 
 /-- what an observer wired to entity `a` (an anchor: both colours of its input) reads is the value the binding
 `b` speaks about -/
@@ -502,7 +545,7 @@ def plausible (nodes : Array CNode) (m : Nat) (k : Kind) : Bool :=
 abbrev Props := List (Nat × Bind)
 
 def Circuit.loud (c : Circuit) (i : Nat) (sel : Sel) : List Nat :=
-  (c.selProducers i sel).filter (fun p => !(c.kind p).silent)
+  (c.selProducers i sel).filter (fun p => !c.silentEnt p)
 
 
 def proposeArg (c : Circuit) (nodes : Array CNode) (i : Nat) (o : Operand) (a : Arg) : Option Props :=
@@ -634,17 +677,43 @@ def proposeParts (c : Circuit) (nodes : Array CNode) (parts : List Nat) (es : Li
     | some nd =>
       (match nd.ty? with
        | some ty =>
-         (match es.filter (fun e => (c.kind e).emitList == some [ty]) with
+         (match es.filter (fun e => c.emitListOf e == some [ty]) with
           | [e] => some (p, Bind.ent e ty)
           | _ => none)
        | none => none)
     | none => none)
 
+/-- what the circuit condition of entity `i` suggests about the nodes behind the enable value `w` -/
+def proposeEnable (c : Circuit) (nodes : Array CNode) (i : Nat) (w : Arg) : Props :=
+  match c.kind i with
+  | .controlled (some cd) =>
+    let direct : Option Props :=
+      if cd.op == .gt && (match cd.second with | .const k => k == 0 | _ => false) then proposeArg c nodes i cd.first w else none
+    let inlined : Props :=
+      match w with
+      | .node m =>
+        (match (nodes[m]? : Option CNode) with
+         | some (.cmp op a b _) =>
+           if cd.op == op then ((proposeArg c nodes i cd.first a).getD []) ++ ((proposeArg c nodes i cd.second b).getD []) else []
+         | some (.anyCmp bn _ rhs none _) =>
+           (match cd.first with | .ref _ sel => [(bn, Bind.many (c.loud i sel))] | _ => []) ++ ((proposeArg c nodes i cd.second rhs).getD [])
+         | some (.allCmp bn _ rhs none _) =>
+           (match cd.first with | .ref _ sel => [(bn, Bind.many (c.loud i sel))] | _ => []) ++ ((proposeArg c nodes i cd.second rhs).getD [])
+         | some (.lnot a _) =>
+           if cd.op == .eq && (match cd.second with | .const k => k == 0 | _ => false) then (proposeArg c nodes i cd.first a).getD [] else []
+         | _ => [])
+      | _ => []
+    -- an inlined comparison wins when its shape fits (the value node then has no combinator)
+    if inlined.isEmpty then direct.getD [] else inlined
+  | _ => []
+
 /-- propagate bindings from consumers to their operands, last node first: for each bound node take the
 first candidate lowering whose shape the bound entity has; then, first node first, give the nodes that have no
 combinator of their own (bundle literals, selections, additions folded into wires) the wire-sum of their parts -/
-def inferBindings (c : Circuit) (nodes : Array CNode) (roots : List (Nat × Bind)) : Array (Option Bind) :=
-  let b0 : Array (Option Bind) := roots.foldl setBind (Array.replicate nodes.size none)
+def inferBindings (c : Circuit) (nodes : Array CNode) (roots : List (Nat × Bind)) (enables : List (Nat × Arg) := []) :
+    Array (Option Bind) :=
+  let b00 : Array (Option Bind) := roots.foldl setBind (Array.replicate nodes.size none)
+  let b0 := enables.foldl (fun b (i, w) => (proposeEnable c nodes i w).foldl setBind b) b00
   let b1 := (List.range nodes.size).reverse.foldl (fun b n =>
     match nodes[n]?, b.getD n none with
     | some nd, some (.ent e s) =>
